@@ -41,6 +41,7 @@ def run(chk, repo):
     ):
         chk.rule(rid, text, m)
     chk.attempt(a1_eval, chk, repo)
+    chk.attempt(a1_product_info, chk, repo)
     chk.attempt(a1, chk, repo, covered_by="a1_eval", rules=("C13-A1",))
     chk.attempt(a2_a5, chk, repo)
     chk.attempt(open_wiring, chk, repo)
@@ -98,6 +99,38 @@ def a1_eval(chk, repo):
         if chk.require(got == want, "C13-A1", where, f"{n} files: first = volume directory, second = leader, last = trailer, the {n - 3} in between = imagery in file order",
                        f"for the file list {files} (keywords {keys}) the roles are {got}, expected {want}", key=f"categorize:eval:{n}"):
             n_ok += 1
+
+
+def a1_product_info(chk, repo):
+    """C13-A1 through the summary reader: summary.transform_product_info evaluated on concrete sections that list 3..12 product files
+    (with the count entry, keywords numbered 01..12, not in sorted order): data_files gives first = volume directory, second = leader,
+    last = trailer, every file in between = imagery in file order - none dropped, whatever the number of digits of the running number"""
+    from collections import OrderedDict
+    from ..repeval import from_shape, Undecided
+    from ..shapes import Const, DictS, Interp, ListLit, NonTermination, Obj, ShapeError, TupS, _Raise
+    sm = repo.module("ceos_alos2.summary")
+    where = f"{sm.relpath}:transform_product_info"
+    for n in (3, 5, 9, 10, 12):
+        names = [f"FILE-{i:02d}" for i in range(1, n + 1)]
+        entries = [(f"L11ProductFileName{i:02d}", f) for i, f in enumerate(names, 1)]
+        section = OrderedDict([("ProductFormat", "CEOS"), ("CntOfL11ProductFileName", str(n))] + entries + [("BitPixel", "32"), ("NoOfPixels_0", "20"), ("NoOfLines_0", "10"), ("ProductDataSize", "1.5")])
+        I = Interp(repo)
+        try:
+            out = I.call(I.lookup("transform_product_info", I.module_scope(sm)), [DictS(OrderedDict((k, Const(v)) for k, v in section.items()))], {})
+            data = out.fields["data"] if isinstance(out, Obj) else None
+            files = data.items.get("data_files") if isinstance(data, DictS) else None
+            got = from_shape(files.fields["attrs"]) if isinstance(files, Obj) else None
+        except _Raise as e:
+            chk.fail("C13-A1", where, f"a product information section listing {n} files raises ({e.what[:80]})", key=f"product-info:{'many' if n >= 10 else 'few'}-files")
+            continue
+        except (ShapeError, NonTermination, RecursionError, Undecided, KeyError, AttributeError) as e:
+            raise AnalysisError(f"{where}: cannot be evaluated on a concrete section listing {n} files: {str(e)[:140]}")
+        want = {"volume_directory": names[0], "sar_leader": names[1], "sar_imagery": names[2:-1], "sar_trailer": names[-1]}
+        if isinstance(got, dict):
+            got = {k: (list(v) if isinstance(v, (list, tuple)) else v) for k, v in got.items()}
+        chk.require(got == want, "C13-A1", where, f"{n} listed files: roles by position, {n - 3} image(s) in file order",
+                    f"a product information section listing {n} files (ProductFileName01..{n:02d}) gives the roles {str(got)[:200]}, expected {str(want)[:160]}: files are dropped or take another role",
+                    key=f"product-info:{'many' if n >= 10 else 'few'}-files")
 
 
 def a1(chk, repo):
@@ -162,15 +195,19 @@ def a2_a5(chk, repo, rule_summary="C13-A2", summary_only=False):
     def G(path, data=None, attrs=None):
         return Obj("Group", OrderedDict(path=Const(path), url=Const("u"), data=data or DictS(), attrs=attrs or DictS()))
 
-    products = [["IMG-HH-P-1.5"], ["IMG-HH-P-1.1", "IMG-HV-P-1.1"], ["IMG-HH-P-B1", "IMG-HH-P-B2", "IMG-HH-P-B3", "IMG-HV-P-B1", "IMG-HV-P-B2", "IMG-HV-P-B3"],
-                ["IMG-VV-P-1.1", "IMG-VH-P-1.1"], ["IMG-HH-P-B2", "IMG-HV-P-B2", "IMG-HH-P-B1", "IMG-HV-P-B1"]]  # the last two: not in lexicographic order in the summary
+    SID = "ALOS2012345678-160229"
+    img = lambda pol, pid, scan=None: f"IMG-{pol}-{SID}-{pid}" + (f"-{scan}" if scan else "")
+    products = [[img("HH", "UBSR1.5RUD")], [img("HH", "UBSL1.1__D"), img("HV", "UBSL1.1__D")], [img(p_, "WBDR1.1__D", b_) for p_ in ("HH", "HV") for b_ in ("B1", "B2", "B3")],
+                [img("VV", "HBQR1.1__A"), img("VH", "HBQR1.1__A")], [img("HH", "WBDR1.1__D", "B2"), img("HV", "WBDR1.1__D", "B2"), img("HH", "WBDR1.1__D", "B1"), img("HV", "WBDR1.1__D", "B1")]]  # the last two: not in lexicographic order in the summary
     results = []
     for images in products:
         I = Interp(repo)
         calls = []
-        roles = DictS({"volume_directory": Const("VOL-P"), "sar_leader": Const("LED-P"), "sar_imagery": ListLit([Const(x) for x in images]), "sar_trailer": Const("TRL-P")})
+        pid = images[0].split("-")[4]
+        VOL, LED, TRL = f"VOL-{SID}-{pid}", f"LED-{SID}-{pid}", f"TRL-{SID}-{pid}"
+        roles = DictS({"volume_directory": Const(VOL), "sar_leader": Const(LED), "sar_imagery": ListLit([Const(x) for x in images]), "sar_trailer": Const(TRL)})
         summary = G("summary", DictS({"product_information": G("product_information", DictS({"data_files": G("data_files", None, roles)}))}))
-        marks = {"summary": summary, "volume": G("/", None, DictS(OrderedDict([("vol", Const("V")), ("blank_text", Const("")), ("zero", Const(0))]))), "leader": G("metadata", None, DictS({"led": Const("L")}))}
+        marks = {"summary": summary, "volume": G("/", None, DictS(OrderedDict([("vol", Const("V")), ("blank_text", Const("")), ("zero", Const(0)), ("scene_id", Const("")), ("product_id", Const(""))]))), "leader": G("metadata", None, DictS({"led": Const("L")}))}
 
         def rec(name, ret):
             def impl(I_, args, kwargs):
@@ -183,7 +220,7 @@ def a2_a5(chk, repo, rule_summary="C13-A2", summary_only=False):
             if not isinstance(fname, Const):
                 raise ShapeError("open_image is not given a constant file name")
             parts = fname.v.split("-")
-            gname = parts[1] + ("_scan" + parts[3][1:] if parts[3].startswith("B") else "")
+            gname = parts[1] + ("_scan" + parts[-1][1:] if len(parts) > 5 and parts[-1][:1] in ("B", "F") else "")
             return G("/" + gname, None, DictS({"src": fname}))
         sc = I.module_scope(io)
         sc.vars["open_summary"] = rec("open_summary", lambda a, k: marks["summary"])
@@ -224,17 +261,23 @@ def a2_a5(chk, repo, rule_summary="C13-A2", summary_only=False):
             a, k = c
             x = a[1] if len(a) > 1 else k.get("path")
             return x.v if isinstance(x, Const) else None
+        by_vol, by_led = "VOL-" + images[0].split("-", 2)[2].rsplit("-B", 1)[0].rsplit("-F", 1)[0], "LED-" + images[0].split("-", 2)[2].rsplit("-B", 1)[0].rsplit("-F", 1)[0]
         sm = [fname_of(c) for c in by.get("open_summary", [])]
         chk.require(sm == ["summary.txt"], "C13-A2", where, "the summary is read from 'summary.txt' of the product", f"summary is read from {sm}", key="open:summary")
-        for opener, role, want in (("open_volume_directory", "volume_directory", "VOL-P"), ("open_sar_leader", "sar_leader", "LED-P")):
+        for opener, role, want in (("open_volume_directory", "volume_directory", by_vol), ("open_sar_leader", "sar_leader", by_led)):
             got = [fname_of(c) for c in by.get(opener, [])]
             chk.require(got == [want], "C13-A2", where, f"{opener} reads the file listed as {role!r}",
                         f"{opener} is given {got} instead of the file listed as {role!r} ({want}): the records of another file are parsed as the {role}", key=f"open:{role}")
         got_imgs = [fname_of(c) for c in by.get("open_image", [])]
         chk.require(got_imgs == images, "C13-A2", where, f"every file listed as 'sar_imagery' is opened by open_image, in summary order ({n} image(s))",
                     f"open_image is called for {got_imgs}, the summary lists {images}: images are dropped, repeated or reordered", key="open:imagery-map", sample={"images": images})
-        opts = [{k: v.v for k, v in kw.items() if isinstance(v, Const)} for a, kw in by.get("open_image", [])]
         want_opts = {"records_per_chunk": 7, "create_cache": True, "use_cache": False}
+        for a, kw in by.get("open_image", []):
+            extra = {k: v for k, v in kw.items() if k not in want_opts and k not in ("mapper", "path") and not (isinstance(v, Const) and v.v is None)}
+            if extra or len(a) > 2:
+                raise AnalysisError(f"{where}: open_image is handed something the model does not know the meaning of ({', '.join(f'{k}={v!r:.40}' for k, v in extra.items()) or 'more positional arguments'}); "
+                                    f"what the image groups are built from is not decided")
+        opts = [{k: v.v for k, v in kw.items() if isinstance(v, Const) and k in want_opts} for a, kw in by.get("open_image", [])]
         chk.require(all(o == want_opts for o in opts) and bool(opts), "C13-A2", where, "every image is opened with the caller's records_per_chunk / create_cache / use_cache",
                     f"open_image receives {opts[:2]} for the call options {want_opts}", key="open:options")
         data, attrs = out.fields["data"], out.fields["attrs"]
@@ -257,7 +300,8 @@ def a2_a5(chk, repo, rule_summary="C13-A2", summary_only=False):
             raise AnalysisError(f"{where}: the imagery group's children do not evaluate to a mapping")
         a = {k: (v.v if isinstance(v, Const) else None) for k, v in attrs.items.items()}
         # the model volume directory has a blank text attribute and a zero: fields that are present stay present whatever their value
-        ok = a.get("vol") == "V" and a.get("blank_text") == "" and a.get("zero") == 0 and set(a) == {"vol", "blank_text", "zero", "reference_document"} and isinstance(a.get("reference_document"), str) and not attrs.optional
+        ok = a.get("vol") == "V" and a.get("blank_text") == "" and a.get("zero") == 0 and a.get("scene_id") == "" and a.get("product_id") == "" and set(a) == {"vol", "blank_text", "zero", "scene_id", "product_id", "reference_document"} \
+            and isinstance(a.get("reference_document"), str) and not attrs.optional
         chk.require(ok, "C13-A5", where, "root attrs = volume directory attrs | {'reference_document': ...}", f"root attrs are {a}: not the volume directory attributes plus the reference link", key="open:root-attrs")
 
 
